@@ -45,6 +45,13 @@ def future_poll(ctx):
         if isinstance(r, list):
             return [(s2, mk_poll_ready(ex, x)) for s2, x in r]
         return mk_poll_ready(ex, r)
+    if isinstance(v, Agg) and v.name == 'PollFn':
+        # tokio::future::poll_fn(f): polling it calls f(cx)  (tokio::select! lowers to this)
+        clo = v.fields.get(0)
+        body = ex.db.closure_fn(clo.name, getattr(clo, 'creator', None)) if isinstance(clo, Agg) else None
+        if body is None:
+            raise Unsupported('poll_fn closure body not found')
+        return Push(body, [Ref(loc[0], loc[1] + (('f', 0, 'F'),), True), ctx.args[1]])
     if isinstance(v, Agg) and v.name.startswith(('{coroutine@', '{async')):
         body = ex.db.coroutine_body(v)
         if body is None:
@@ -57,7 +64,13 @@ def future_poll(ctx):
         bh = getattr(ex, 'benign_havoc', None)
         if not (bh is not None and bh.search('await:' + v.ty)):
             st.env['havoc'] = st.env.get('havoc', ()) + ('await:' + v.ty[:40],)
-        return mk_poll_ready(ex, ex.fresh_result_ok(st, out_ty, 'aw'))
+        ready = mk_poll_ready(ex, ex.fresh_result_ok(st, out_ty, 'aw'))
+        if any(fr.fn.params and 'macros/select.rs' in fr.fn.params[0][1] for fr in st.frames):
+            # an arm of tokio::select!: an unknown future may also not be ready yet (the other arms get their turn)
+            s2 = st.fork()
+            s2.trace.append(('select-arm-pending', v.ty[:40]))
+            return [(st, ready), (s2, Agg('Poll', {}, 1, {}, ex.si.enums['Poll']))]
+        return ready
     raise Unsupported('poll on %r' % (v,))
 
 
@@ -1492,3 +1505,188 @@ def slice_contains_string(ctx):
             return NotImplemented
         terms.append(bytes_equal(ex, st, b, x))
     return Bool(simp(z3.Or(terms)) if terms else z3.BoolVal(False))
+
+
+@contract(r'^tokio::future::poll_fn::poll_fn::<.*>$|^std::future::poll_fn::<.*>$|^core::future::poll_fn::<.*>$')
+def poll_fn_new(ctx):
+    return Agg('PollFn', {0: ctx.args[0]})
+
+
+@contract(r'^<u(?:8|16|32|64|size) as Default>::default$|^<i(?:8|16|32|64|size) as Default>::default$')
+def int_default(ctx):
+    from engine import INT_TYPES
+    m = re.match(r'^<([iu]\w+) as Default>', ctx.callee)
+    bits, sg = INT_TYPES[m.group(1)]
+    return Int(BV(0, bits), bits, sg)
+
+
+@contract(r'^core::slice::<impl \[u8\]>::(first|last)$|^<(?:bytes::)?Bytes(?:Mut)? as .*>::(first|last)$')
+def byte_slice_first_last(ctx):
+    """[u8]::first / last: None iff empty, else a reference to the first / last byte"""
+    ex, st = ctx.ex, ctx.st
+    loc = BufLoc(ex, st, ctx.args[0])
+    b = loc.val
+    last = ctx.callee.endswith('last')
+    nonempty = simp(b.len != BV(0, 64))
+    t, f = ex.branch(st, nonempty)
+    outs = []
+    cell, path = loc.loc
+    if t:
+        s2 = st.fork() if f else st
+        ex.assume(s2, nonempty)
+        idx = simp(b.len - 1) if last else BV(0, 64)
+        if path and path[-1][0] == 'slice':
+            r = Ref(cell, path[:-1] + (('i', simp(U64(path[-1][1]) + idx)),))
+        else:
+            r = Ref(cell, path + (('i', idx),))
+        outs.append((s2, mk_option(ex, r)))
+    if f:
+        if t:
+            ex.assume(st, z3.Not(nonempty))
+        outs.append((st, mk_option(ex, None)))
+    return outs
+
+
+@contract(r'^(?:std::option::)?Option::<.*>::unwrap_or$')
+def option_unwrap_or(ctx):
+    """Option::unwrap_or(default): the payload if Some, else `default`"""
+    ex, st = ctx.ex, ctx.st
+    v, _ = to_enum(ex, st, ctx.args[0])
+    d = v.discr
+    dflt = ctx.args[1]
+    hm = re.match(r'^(?:std::option::)?Option::<(.*)>::unwrap_or$', ctx.callee, re.S)
+    pty = hm.group(1).strip() if hm else 'unknown'
+    if v.variants.get(1, {}).get(0) is None and isinstance(dflt, (Ref, Bytes)):
+        # payload never materialised: it has the shape of the default (same type)
+        pty = pty if pty != 'unknown' else 'unknown'
+    if isinstance(d, int):
+        return payload(ex, st, v, 1, 0, pty) if d == 1 else dflt
+    some = simp(d == BV(1, 64))
+    t, f = ex.branch(st, some)
+    if t and f:
+        pv = v.variants.get(1, {}).get(0)
+        if isinstance(pv, Int) and isinstance(dflt, Int) and pv.bits == dflt.bits:
+            return Int(simp(z3.If(some, pv.t, dflt.t)), pv.bits, pv.signed)
+        if isinstance(pv, Bool) and isinstance(dflt, Bool):
+            return Bool(simp(z3.If(some, pv.t, dflt.t)))
+    outs = []
+    if t:
+        s2 = st.fork() if f else st
+        ex.assume(s2, some)
+        outs.append((s2, payload(ex, s2, v, 1, 0, pty)))
+    if f:
+        if t:
+            ex.assume(st, z3.Not(some))
+        outs.append((st, dflt))
+    return outs
+
+
+@contract(r'^(?:std::net::)?IpAddr::to_canonical$')
+def ipaddr_to_canonical(ctx):
+    """IpAddr::to_canonical: an IPv4-mapped IPv6 address (::ffff:a.b.c.d) becomes V4(a.b.c.d); everything else is unchanged"""
+    ex, st = ctx.ex, ctx.st
+    v, _ = to_enum(ex, st, ctx.args[0])
+    d = v.discr
+    v6 = v.variants.get(1, {}).get(0)
+    v4 = v.variants.get(0, {}).get(0)
+    if isinstance(d, int) and d == 0:
+        return v
+    if v6 is None:
+        return NotImplemented
+    v6 = _as_ipv6(ctx, v6)
+    b = v6.fields[0]
+    mapped = z3.And(z3.And([b.at(i) == BV(0, 8) for i in range(10)]), z3.Concat(b.at(10), b.at(11)) == BV(0xffff, 16))
+    low = simp(z3.Concat(b.at(12), b.at(13), b.at(14), b.at(15)))
+    is6 = z3.BoolVal(True) if isinstance(d, int) else d == BV(1, 64)
+    conv = simp(z3.And(is6, mapped))
+    old4 = v4.fields[0].t if isinstance(v4, Agg) and 0 in v4.fields and isinstance(v4.fields[0], Int) else BV(0, 32)
+    nd = simp(z3.If(conv, BV(0, 64), d if not isinstance(d, int) else BV(d, 64)))
+    return Agg('IpAddr', {}, nd, {0: {0: ipv4(simp(z3.If(conv, low, old4)))}, 1: {0: v6}}, ex.si.enums['IpAddr'])
+
+
+# --------------------------------------------------------------------------- tokio BufReader read-ahead
+
+def _read_ahead(ex, st, strm, loc):
+    """the number of input bytes sitting in the BufReader's buffer: any 0..=remaining, fixed once observed"""
+    if strm.ahead is not None:
+        return strm, strm.ahead
+    k = z3.BitVec(fresh_name('read_ahead'), 64)
+    ex.assume(st, z3.ULE(k, simp(strm.inp.len - strm.pos)))
+    st.env.setdefault('read_ahead', []).append(k)
+    strm = strm.replace(ahead=k)
+    ex.store(st, loc[0], loc[1], strm)
+    return strm, k
+
+
+@contract(r'^tokio::io::BufReader::<.*>::buffer$|^tokio::io::BufStream::<.*>::buffer$')
+def bufreader_buffer(ctx):
+    """BufReader::buffer(): the bytes already read from the socket and not yet consumed"""
+    ex, st = ctx.ex, ctx.st
+    try:
+        strm, loc = stream_of(ex, st, ctx.args[0])
+    except Unsupported:
+        return NotImplemented
+    strm, k = _read_ahead(ex, st, strm, loc)
+    st.trace.append(('buffer()', strm.name, k))
+    return Ref(st.alloc(strm.inp.slice(strm.pos, k, 'slice')), ())
+
+
+@contract(r'^tokio::io::BufReader::<.*>::into_inner$')
+def bufreader_into_inner(ctx):
+    """BufReader::into_inner(): the inner stream -- whatever the reader had buffered is gone with the reader"""
+    ex, st = ctx.ex, ctx.st
+    try:
+        strm, loc = stream_of(ex, st, ctx.args[0])
+    except Unsupported:
+        return ctx.args[0]
+    strm, k = _read_ahead(ex, st, strm, loc)
+    st.trace.append(('read-ahead-discarded', strm.name, k, strm.pos))
+    ex.store(st, loc[0], loc[1], strm.replace(pos=simp(strm.pos + k), ahead=BV(0, 64), buffered=False))
+    return ctx.args[0]
+
+
+@contract(r'^tokio::io::BufWriter::<.*>::into_inner$')
+def bufwriter_into_inner(ctx):
+    """BufWriter::into_inner(): bytes written but not flushed are dropped with the writer"""
+    ex, st = ctx.ex, ctx.st
+    try:
+        strm, loc = stream_of(ex, st, ctx.args[0])
+    except Unsupported:
+        return ctx.args[0]
+    st.trace.append(('write-buffer-discarded', strm.name, simp(strm.out.len - strm.flushed)))
+    return ctx.args[0]
+
+
+@contract(r'^<\{closure@.*\} as Fn(?:Mut|Once)?<\(.*\)>>::call(?:_mut|_once)?$')
+def closure_call(ctx):
+    """calling a local closure value through the Fn* traits (`let f = |x| ..; f(a)`): run the closure's real body"""
+    ex, st = ctx.ex, ctx.st
+    c = ctx.args[0]
+    cv = c
+    seen = 0
+    while isinstance(cv, Ref) and seen < 4:
+        cv = ex.load(st, cv.cell, cv.path)
+        seen += 1
+    if isinstance(cv, Opaque) and (cv.ty or '').strip().startswith('{closure@'):
+        # a capture-less closure is zero-sized: MIR never assigns it, the local is just read
+        cv = Agg(cv.ty.strip(), {}, None, {}, None, creator=ctx.fr.fn.name)
+    if not isinstance(cv, Agg):
+        return NotImplemented
+    body = ex.db.closure_fn(cv.name, getattr(cv, 'creator', None))
+    if body is None:
+        return NotImplemented
+    tup = ctx.args[1]
+    if isinstance(tup, Agg):
+        rest = [tup.fields[i] for i in sorted(tup.fields)]
+    elif tup is UNIT or tup is None:
+        rest = []
+    else:
+        rest = [tup]
+    # the body takes the closure the way its kind says (&self / &mut self / self): pass what the caller passed
+    first = c
+    want_ref = body.params and body.params[0][1].strip().startswith('&')
+    if want_ref and not isinstance(c, Ref):
+        first = Ref(st.alloc(c), ())
+    if not want_ref and isinstance(c, Ref):
+        first = cv
+    return Push(body, [first] + rest)
